@@ -247,17 +247,17 @@ def build_table(system, S, E, nv, ints=False):
 
 def run_fill(case):
     from cij.util.fill import fill_cij
-    s, nv = case["system"], case["nv"]
-    E = expected_tensor(s, nv)
+    s, mask = case["system"], case["mask"]
     nvn = L.nonvanishing(s)
-    for j in nvn:
-        if not numpy.abs(E[j]).max() > 1.0:
-            raise HarnessError(f"{s}: generated non-vanishing component {L.NAMES[j]} is (nearly) zero")
     viol = []
     nfill = 0
     outcomes = set()
     with scratch_cwd():
-        for mask in case["masks"]:
+        for nv in NVS:
+            E = expected_tensor(s, nv)
+            for j in nvn:
+                if not numpy.abs(E[j]).max() > 1.0:
+                    raise HarnessError(f"{s}: generated non-vanishing component {L.NAMES[j]} is (nearly) zero")
             S = L.mask_to_subset(s, mask)
             if not L.is_sufficient(s, S):
                 raise HarnessError(f"{s}: mask {mask} is not sufficient")
@@ -277,8 +277,8 @@ def run_fill(case):
             n0 = len(viol)
             check_invariant_result(s, S, E, vin, res, viol, "c08:fill")
             outcomes.add("ok" if len(viol) == n0 else "wrong")
-    return {"viol": dedupe(viol), "outcome": f"fill:{s}:nV{nv}:" + "+".join(sorted(outcomes)),
-            "key": f"fill:{s}:{nv}:{case['masks'][0]}:{len(case['masks'])}", "nfill": nfill}
+    return {"viol": dedupe(viol, 1), "outcome": f"fill:{s}:" + "+".join(sorted(outcomes)),
+            "key": f"fill:{s}:{mask}", "nfill": nfill}
 
 
 # --------------------------------------------------------------------------- part 3
@@ -427,11 +427,10 @@ def explore(ctx):
         if len(masks) < len(allm):
             complete = False
         counts[s] = {"subsets_of_nonvanishing": 2 ** len(L.nonvanishing(s)), "sufficient": len(allm), "explored": len(masks)}
-        for nv in NVS:
-            for ch in chunks(masks, 12):
-                cases.append({"kind": "fill", "system": s, "nv": nv, "masks": ch})
-    nf = sum(len(c["masks"]) for c in cases)
-    res = ctx.run(MOD, "run_case", cases, part="fill", states=nf, transitions=nf, chunksize=1)
+        for m in sorted(masks, key=lambda m: (popcount(m), m)):
+            cases.append({"kind": "fill", "system": s, "mask": m})
+    nf = len(cases) * len(NVS)
+    res = ctx.run(MOD, "run_case", cases, part="fill", states=nf, transitions=nf, chunksize=4)
     ctx.notes["fill_subsets"] = counts
     ctx.notes["fill_calls"] = sum(r.get("nfill", 0) for r in res)
     ctx.notes["n_V_alphabet"] = list(NVS)
